@@ -55,8 +55,19 @@
 (*                  norm_eps on which sigma_max AND the smallest non-zero  *)
 (*                  singular value of 2^e diag(c) J lie is decided exactly *)
 (*                  from gd = diag(Gram(J)) and c (UPGrad ladder of C09)   *)
+(*   LawConFIG      (part of LawC09; the direction clauses also in LawC08 *)
+(*                  and LawC10) ConFIG on the TALL instances of the family *)
+(*                  (independent columns, dependent and conflicting rows,  *)
+(*                  one common row norm): direction y from the normal      *)
+(*                  equations, A(diag(c) J) = (sum_i c_i d_i) y / <y,y>,   *)
+(*                  the length l(c) = sum_i c_i d_i carried by its base-   *)
+(*                  1024 digits (linear in c), its SIGN decided exactly -  *)
+(*                  it changes between c1, c2 and a c1 + b c2              *)
 (*   Export         prints the scenario with the expected values and the   *)
 (*                  exact classification of the instance                   *)
+(* Further instance families of the same laws have their own modules:      *)
+(* AggSymMany (27..40 rows = common offset + spread; C08, C10) and         *)
+(* AggSymCancel (GradDrop on columns with large cancelling entries; C10).  *)
 (***************************************************************************)
 EXTENDS SymAgg, Json
 
